@@ -1354,6 +1354,11 @@ func runPkg(prop string, cfg *runCfg) error {
 	}
 	res.DistinctNontrivial = dist.n()
 	res.Shards = writeShards(cfg.out, "pkgcases", "From Coq Require Import ZArith NArith List.\nFrom WZ Require Import Model.Pkg Corr.PkgCorr.", "case", "mismatches", coqCases, 40)
+	if prop == "C01" {
+		rawCases := rawPartStream(res, r.fork(), cfg.n/3)
+		res.Shards = append(res.Shards, writeShards(cfg.out, "rawcases", "From Coq Require Import String List Bool.\nFrom WZ Require Import Model.RawPart Corr.RawPartCorr.", "case", "mismatches", rawCases, 100)...)
+		res.Histogram["raw part cases"] = len(rawCases)
+	}
 	if prop == "C10" {
 		res.Shards = append(res.Shards, writeShards(cfg.out, "extcases", "From Coq Require Import ZArith List Bool String.\nFrom WZ Require Import Model.Extent Corr.ExtentCorr.", "case", "mismatches", extObs, 400)...)
 		res.Histogram["extent observations (distinct)"] = len(extObs)
